@@ -11,6 +11,12 @@ the property) to the working tree:
 * realizability: the extended net (`M0`, `MT`, arcs), the verdict with the same bounds, validity of
   the implementation's own certificate (`spec.petri.certificate`, the hypothesis of the proved
   `certificate_check_sound`), and the verdict against an exhaustive reachability search written here.
+
+Three history streams reuse ONE object across many calls (hidden state between calls): all public
+methods of `PathwayRealizability` in random order, interleaved construction / queries on `PetriNet`
+objects, and `PetriAnalyzer` objects kept across in-place edits of their network.  The model side is
+computed per query from what is loaded / defined at that moment (the Lean model is pure), never from
+the history.
 """
 import itertools
 import json
@@ -34,6 +40,11 @@ THEOREMS = [
     "SynKit.Petri.certificate_check_sound",
     "SynKit.Petri.bfs_never_fuelOut",
     "SynKit.Petri.bfs_complete_partial",
+    "SynKit.Petri.bfs_notFound_within_states",
+    "SynKit.Petri.bfs_complete_within_bounds",
+    "SynKit.Petri.bfs_complete_within_bounds_5a",
+    "SynKit.Petri.bfs_never_unrealizable_within_bounds",
+    "SynKit.Petri.bfs_complete_within_bounds_card",
 ]
 
 SPEC_LIMIT = 10_000  # markings explored by the exhaustive oracle
@@ -44,11 +55,55 @@ def fam(x):
     return sorted(sorted(s) for s in x)
 
 
+def to_bipartite_variant(desc, render=None):
+    """The hand-built bipartite graph of `netio.to_bipartite_raw` in other documented renderings:
+    'int-ids' (integer node ids, species/reaction told apart by the `bipartite` flag only, labels as
+    attributes, nodes inserted in reverse order), 'no-label' (species node id = label, no `label`
+    attribute), 'undirected' (nx.Graph; only for networks where no species is on both sides of a reaction)."""
+    import networkx as nx
+
+    if render is None:
+        return netio.to_bipartite_raw(desc)
+    net = netio.to_net_json_raw(desc)
+    G = nx.Graph() if render == "undirected" else nx.DiGraph()
+    if render == "int-ids":
+        sid = {s: 100 + 2 * i for i, s in enumerate(reversed(net["species"]))}
+        rid = {r["id"]: 7 + 2 * i for i, r in enumerate(reversed(net["reactions"]))}
+        for r in reversed(net["reactions"]):
+            G.add_node(rid[r["id"]], bipartite=1, label=r["rule"])
+        for s in reversed(net["species"]):
+            G.add_node(sid[s], bipartite=0, label=s)
+    elif render == "no-label":
+        sid = {s: s for s in net["species"]}
+        rid = {r["id"]: "R:" + r["id"] for r in net["reactions"]}
+        for s in net["species"]:
+            G.add_node(s, kind="species")
+        for r in net["reactions"]:
+            G.add_node(rid[r["id"]], kind="reaction", label=r["rule"])
+    else:
+        sid = {s: "S:" + s for s in net["species"]}
+        rid = {r["id"]: "R:" + r["id"] for r in net["reactions"]}
+        for s in net["species"]:
+            G.add_node(sid[s], kind="species", bipartite=0, label=s)
+        for r in net["reactions"]:
+            G.add_node(rid[r["id"]], kind="reaction", bipartite=1, label=r["rule"])
+    for r in net["reactions"]:
+        for sp, c in r["r"]:
+            G.add_edge(sid[sp], rid[r["id"]], role="reactant", stoich=int(c))
+        for sp, c in r["p"]:
+            G.add_edge(rid[r["id"]], sid[sp], role="product", stoich=int(c))
+    return G
+
+
+def undirected_ok(desc):
+    return all(not ({sp for sp, _ in r["r"]} & {sp for sp, _ in r["p"]}) for r in desc["reactions"])
+
+
 def impl_structure(case):
     from synkit.CRN.Petri import find_siphons, find_traps
 
     if case.get("raw"):
-        crn = netio.to_bipartite_raw(case["desc"])
+        crn = to_bipartite_variant(case["desc"], case.get("render"))
     else:
         crn = netio.to_hypergraph(case["desc"])
     ms = case.get("max_size")
@@ -348,19 +403,44 @@ def pathway_of(case):
     return species, rs, [[k, int(v)] for k, v in case["flow"]]
 
 
-def impl_realizable(case):
-    from synkit.CRN.Path.realizability import PathwayRealizability, RealizabilityConfig, hypergraph_to_pr_inputs
+def pr_inputs(case):
+    """-> (vertices, edges, flow) as handed to `load_hypergraph_and_flow` for a pathway description
+    (keys desc, flow, edge_order / via_hypergraph)."""
+    from synkit.CRN.Path.realizability import hypergraph_to_pr_inputs
 
     vertices, rs, flow = pathway_of(case)
     fl = dict(map(tuple, flow))
-    ms, md = case["max_states"], case["max_depth"]
     if case.get("via_hypergraph"):
         H = netio.to_hypergraph(case["desc"])
-        v, e, f = hypergraph_to_pr_inputs(H, flow={r["id"]: fl.get(r["id"], 0) for r in rs})
-    else:
-        v = list(vertices)
-        e = {r["id"]: (dict(map(tuple, r["r"])), dict(map(tuple, r["p"]))) for r in rs}
-        f = fl
+        return hypergraph_to_pr_inputs(H, flow={r["id"]: fl.get(r["id"], 0) for r in rs})
+    v = list(vertices)
+    e = {r["id"]: (dict(map(tuple, r["r"])), dict(map(tuple, r["p"]))) for r in rs}
+    dec = case.get("decorate")
+    if dec:
+        # the same pathway written in a rarer but legal way (the model side never sees the decoration)
+        for eid, side, sp in dec.get("zeros", []):  # explicit zero multiplicities
+            if eid in e and sp not in e[eid][side]:
+                e[eid][side][sp] = 0
+        for k, val in dec.get("extra_flow", []):  # flow entries for edges that do not exist
+            if k not in e:
+                fl[k] = val
+        shape = dec.get("vertices")
+        if shape == "tuple":
+            v = tuple(v)
+        elif shape == "duplicates":
+            v = v + v[::-1]
+        elif shape == "generator":
+            v = (x for x in list(v))
+        elif shape == "set":
+            v = set(v)
+    return v, e, fl
+
+
+def impl_realizable(case):
+    from synkit.CRN.Path.realizability import PathwayRealizability, RealizabilityConfig
+
+    ms, md = case["max_states"], case["max_depth"]
+    v, e, f = pr_inputs(case)
     if case.get("via_config"):
         pr = PathwayRealizability(RealizabilityConfig(max_states=ms, max_depth=md))
     else:
@@ -697,6 +777,841 @@ def random_pathway_case(rnd, max_species=4, small=False):
     return case
 
 
+# =============================================================== histories on ONE PathwayRealizability object
+# Every public method of the class is called in random order on one (or two interleaved) objects.
+# Nothing is modelled about the history: each `is_realizable` answer is judged by the pure Lean model /
+# specification of the pathway that is loaded AT THAT MOMENT (the docstrings promise that
+# `is_scaled_realizable` restores flow and net, that `is_borrow_realizable` restores the markings and that
+# `load_hypergraph_and_flow` invalidates the net).
+DEFAULT_BOUNDS = (100_000, 10_000)  # RealizabilityConfig defaults
+
+
+def tokens_pathway(rnd, sp):
+    """A network grown along a firing sequence that starts at a small NON-zero marking b and returns to b.
+    The flow is conservative and realizable once b is borrowed; from the zero marking it is realizable
+    only by luck (closed cycles, autocatalysis, catalysts needed in more copies than the feed supplies),
+    sometimes after scaling (species of b fed by a source and drained by a sink).  -> (reactions, flow, b)"""
+    b = {s: rnd.choice([1, 1, 2]) for s in rnd.sample(sp, rnd.randint(1, min(2, len(sp))))}
+    m = dict(b)
+    rs, flow = [], {}
+
+    def apply(r):
+        for s, c in r["r"]:
+            m[s] -= c
+            if m[s] == 0:
+                del m[s]
+        for s, c in r["p"]:
+            m[s] = m.get(s, 0) + c
+        flow[r["id"]] = flow.get(r["id"], 0) + 1
+
+    def new(r, p, times=1):
+        rx = {"id": f"r_{len(rs) + 1}", "rule": "r", "r": r, "p": p}
+        rs.append(rx)
+        for _ in range(times):
+            apply(rx)
+
+    if rnd.random() < 0.55:  # feed the borrowed species through sources (drained again when closing)
+        for s in sorted(b):
+            if rnd.random() < 0.8:
+                new([], [[s, 1]], times=rnd.randint(1, b[s]))
+    for step in range(rnd.randint(1, 4)):
+        en = [r for r in rs if all(m.get(s, 0) >= c for s, c in r["r"])]
+        if en and rnd.random() < 0.3:
+            apply(rnd.choice(en))
+            continue
+        if step == 0 and rnd.random() < 0.6:  # needs every token present now (borrowed + fed) of one species
+            s0 = rnd.choice(sorted(b))
+            r = [[s0, min(3, m[s0])]]
+        elif m and rnd.random() < 0.9:
+            keys = rnd.sample(sorted(m), rnd.randint(1, min(2, len(m))))
+            r = [[s, rnd.randint(1, min(3, m[s]))] for s in keys]
+        else:
+            r = []
+        if r and rnd.random() < 0.45:  # catalytic / autocatalytic: a reactant comes back
+            cat = rnd.choice(r)
+            others = [x for x in sp if x != cat[0]]
+            p = [[cat[0], cat[1] + rnd.choice([0, 0, 1])]] + [[s, 1] for s in rnd.sample(others, rnd.randint(0, min(1, len(others))))]
+        else:
+            p = [[s, rnd.choice([1, 1, 2])] for s in rnd.sample(sp, rnd.randint(0 if r else 1, min(2, len(sp))))]
+        if sum(m.values()) + sum(c for _, c in p) > 8:
+            p = []
+        if not r and not p:
+            continue
+        new(r, p)
+    surplus = sorted([s, m[s] - b.get(s, 0)] for s in m if m[s] > b.get(s, 0))
+    deficit = sorted([s, b[s] - m.get(s, 0)] for s in b if b[s] > m.get(s, 0))
+    if surplus or deficit:
+        if rnd.random() < 0.5:
+            new(surplus, deficit)
+        else:
+            for s, c in surplus:
+                if rnd.random() < 0.5:
+                    new([[s, c]], [])
+                else:
+                    new([[s, 1]], [], times=c)
+            for s, c in deficit:
+                new([], [[s, 1]], times=c)
+    assert m == b, (m, b)
+    return rs, flow, b
+
+
+def random_pool_pathway(rnd, max_species):
+    """One pathway description {desc, flow, edge_order | via_hypergraph, kind} for a history."""
+    if rnd.random() < 0.6:
+        sp = list("ABCDEF")[: rnd.randint(1, max_species)]
+        rs, flow, _ = tokens_pathway(rnd, sp)
+        if rs:
+            rs = [dict(r) for r in rs]
+            if rnd.random() < 0.25:  # an unused reaction
+                rs.append({"id": f"r_{len(rs) + 1}", "rule": "r", "r": [[rnd.choice(sp), 1]], "p": [[rnd.choice(sp), 1]]})
+            rnd.shuffle(rs)
+            pw = {"desc": {"reactions": rs, "isolated": ["Z"] if rnd.random() < 0.08 else []},
+                  "flow": sorted([k, v] for k, v in flow.items()), "kind": "needs-tokens",
+                  "via_hypergraph": rnd.random() < 0.3}
+            if not pw["via_hypergraph"]:
+                order = list(range(len(rs)))
+                rnd.shuffle(order)
+                pw["edge_order"] = order
+            return decorate_pathway(rnd, pw) if rnd.random() < 0.25 else pw
+    c = random_pathway_case(rnd, max_species=max(2, max_species), small=rnd.random() < 0.5)
+    pw = {k: c[k] for k in ("desc", "flow", "via_hypergraph", "kind", "edge_order") if k in c}
+    return decorate_pathway(rnd, pw) if rnd.random() < 0.25 else pw
+
+
+def decorate_pathway(rnd, pw):
+    """Rare but legal ways of writing the same pathway for `load_hypergraph_and_flow`."""
+    if pw.get("via_hypergraph"):
+        return pw
+    species, rs, _ = pathway_of(pw)
+    dec = {}
+    if rs and species and rnd.random() < 0.7:
+        dec["zeros"] = [[rnd.choice(rs)["id"], rnd.choice([0, 1]), rnd.choice(species)] for _ in range(rnd.randint(1, 3))]
+    if rnd.random() < 0.6:
+        dec["extra_flow"] = [[rnd.choice(["zz", "r_0", "__ext__r_1", "r_99"]), rnd.choice([1, 2, -1])] for _ in range(rnd.randint(1, 2))]
+    dec["vertices"] = rnd.choice(["tuple", "duplicates", "generator", "set", None])
+    return dict(pw, decorate=dec)
+
+
+def pathway_states_bound(pw, k=1):
+    """Upper bound on the markings reachable in the extended net of k*flow (a marking is determined by
+    the firing counts)."""
+    n = 1
+    for _, v in pw["flow"]:
+        n *= k * max(int(v), 0) + 1
+    return n
+
+
+def random_pr_history(rnd, max_species=4):
+    pws = [random_pool_pathway(rnd, max_species) for _ in range(rnd.choice([1, 1, 2, 3]))]
+    nobj = 2 if rnd.random() < 0.3 else 1
+    configs = []
+    for _ in range(nobj):
+        x = rnd.random()
+        configs.append(None if x < 0.25 else [rnd.choice([300, 2000, 5000]), rnd.choice([60, 60, 12])] if x < 0.9
+                       else [rnd.choice([3, 10, 40]), rnd.choice([60, 3])])
+    loaded = [None] * nobj
+    ops = []
+    budget = 6000  # marking visits allowed per scaled / borrow call
+
+    def add_load(o):
+        i = rnd.randrange(len(pws))
+        ops.append({"op": "load", "obj": o, "pw": i})
+        loaded[o] = i
+        if rnd.random() < 0.85:
+            ops.append({"op": "build", "obj": o})
+
+    for o in range(nobj):
+        add_load(o)
+    for _ in range(rnd.randint(4, 10)):
+        o = rnd.randrange(nobj)
+        pw = pws[loaded[o]]
+        cap = (configs[o] or DEFAULT_BOUNDS)[0]
+        x = rnd.random()
+        if x < 0.36:
+            y = rnd.random()
+            if y < 0.45:
+                ms, md = None, None
+            elif y < 0.7:
+                ms, md = 5000, 60
+            elif y < 0.85:
+                ms, md = rnd.choice([0, 1, 2, 3, 5, 10, 30]), rnd.choice([None, 60])
+            else:
+                ms, md = rnd.choice([None, 5000]), rnd.choice([0, 1, 2, 3, 4])
+            ops.append({"op": "realizable", "obj": o, "ms": ms, "md": md})
+        elif x < 0.52:
+            ks = [k for k in (1, 2, 3, 4) if sum(min(cap, pathway_states_bound(pw, j)) for j in range(1, k + 1)) <= budget]
+            ops.append({"op": "scaled", "obj": o, "k_max": rnd.choice(ks[-2:]) if ks else 1})
+        elif x < 0.68:
+            nv = len(pathway_of(pw)[0])
+            per = min(cap, pathway_states_bound(pw))
+            bs = [bb for bb in (0, 1, 2) if (bb + 1) ** nv * per <= budget]
+            ops.append({"op": "borrow", "obj": o, "max_borrow_each": rnd.choice(bs[-2:]) if bs else 0})
+        elif x < 0.75:
+            ops.append({"op": "build", "obj": o})
+        elif x < 0.83:
+            add_load(o)
+        elif x < 0.88:
+            ops.append({"op": "konig", "obj": o})
+        elif x < 0.92:
+            ops.append({"op": "certificate", "obj": o})
+        elif x < 0.96:
+            ops.append({"op": "export", "obj": o})
+        else:
+            ops.append({"op": "markings", "obj": o})
+    if not any(op["op"] == "realizable" for op in ops[-2:]):
+        ops.append({"op": "realizable", "obj": rnd.randrange(nobj), "ms": None, "md": None})
+    return {"stream": "pr-history", "pathways": pws, "configs": configs, "ops": ops}
+
+
+def _pairs(d):
+    return sorted([str(k), int(w)] for k, w in d.items())
+
+
+def impl_pr_history(case):
+    """Run the operations; -> one record per op.  `loaded` is the pathway the object holds at that
+    moment, `built` whether a documented (re)build happened since the last load."""
+    import os
+    import tempfile
+
+    from synkit.CRN.Path.realizability import PathwayRealizability, RealizabilityConfig
+
+    objs = [PathwayRealizability() if c is None else PathwayRealizability(RealizabilityConfig(max_states=c[0], max_depth=c[1]))
+            for c in case["configs"]]
+    loaded = [None] * len(objs)
+    built = [False] * len(objs)
+    out = []
+    with tempfile.TemporaryDirectory(prefix="c20_") as tmp:
+        for n, op in enumerate(case["ops"]):
+            o = op["obj"]
+            if o >= len(objs):
+                continue
+            pr = objs[o]
+            kind = op["op"]
+            rec = {"n": n, "op": kind, "obj": o}
+            try:
+                if kind == "load":
+                    if op["pw"] >= len(case["pathways"]):
+                        continue
+                    pr.load_hypergraph_and_flow(*pr_inputs(case["pathways"][op["pw"]]))
+                    loaded[o], built[o] = op["pw"], False
+                elif kind == "build":
+                    pr.build_petri_net_from_flow()
+                    built[o] = True
+                elif kind == "realizable":
+                    ok, cert = pr.is_realizable(max_states=op.get("ms"), max_depth=op.get("md"))
+                    rec["verdict"] = "found" if ok else "notFound"
+                    rec["seq"] = None if cert is None else list(cert)
+                    rec["cert_attr"] = None if pr.certificate is None else list(pr.certificate)
+                    rec["M0"], rec["MT"] = _pairs(pr.initial_marking), _pairs(pr.target_marking)
+                    rec["flow_attr"] = _pairs(pr.flow)
+                elif kind == "konig":
+                    rec["konig"] = bool(pr.is_realizable_via_konig())
+                elif kind == "scaled":
+                    ok, k = pr.is_scaled_realizable(k_max=op["k_max"])
+                    rec["result"] = [bool(ok), k]
+                    built[o] = True
+                elif kind == "borrow":
+                    ok, b = pr.is_borrow_realizable(max_borrow_each=op["max_borrow_each"])
+                    rec["result"] = [bool(ok), None if b is None else _pairs(b)]
+                    built[o] = True
+                elif kind == "certificate":
+                    c = pr.certificate
+                    rec["certificate"] = None if c is None else list(c)
+                elif kind == "export":
+                    fn = os.path.join(tmp, f"net{n}.json")
+                    pr.export_pnml(fn)
+                    built[o] = True
+                    data = json.loads(open(fn).read())
+                    rec["M0"], rec["MT"] = _pairs(data["initial"]), _pairs(data["target"])
+                elif kind == "markings":
+                    rec["M0"], rec["MT"] = _pairs(pr.initial_marking), _pairs(pr.target_marking)
+            except RuntimeError:
+                rec["error"] = "RuntimeError"
+            rec["loaded"], rec["built"] = loaded[o], built[o]
+            out.append(rec)
+    return out
+
+
+def pr_step_case(case, op, rec):
+    """The one-shot realizability case (pathway loaded at that moment + effective bounds) of a step."""
+    d = case["configs"][rec["obj"]] or DEFAULT_BOUNDS
+    ms = op.get("ms") if op.get("ms") is not None else d[0]
+    md = op.get("md") if op.get("md") is not None else d[1]
+    return dict(case["pathways"][rec["loaded"]], max_states=ms, max_depth=md)
+
+
+def pr_history_requests(case, steps):
+    """Lean requests for the judged steps: -> list of (step position, what, request)."""
+    reqs = []
+    for i, rec in enumerate(steps):
+        if rec["loaded"] is None:
+            continue
+        op = case["ops"][rec["n"]]
+        if rec["op"] == "realizable" and "error" not in rec:
+            sub = pr_step_case(case, op, rec)
+            reqs.append((i, "model", realizable_request(sub)))
+            if rec["verdict"] == "found" and rec["seq"] is not None and all(isinstance(t, str) for t in rec["seq"]):
+                reqs.append((i, "cert", realizable_request(sub, "spec.petri.certificate", seq=rec["seq"])))
+        elif rec["op"] == "realizable" and rec["built"]:
+            reqs.append((i, "model", realizable_request(pr_step_case(case, op, rec))))
+        elif rec["op"] in ("export", "markings") and "M0" in rec:
+            sub = dict(case["pathways"][rec["loaded"]], max_states=0, max_depth=0)
+            reqs.append((i, "model", realizable_request(sub)))
+    return reqs
+
+
+def judge_pr_history(case, steps, reqs, answers):
+    """-> (spec failures, correspondence failures), each a list of (op number, message)."""
+    spec, corr = [], []
+    ans = {}
+    for (i, what, _), a in zip(reqs, answers):
+        ans[(i, what)] = a
+    for i, rec in enumerate(steps):
+        if rec["loaded"] is None:
+            continue
+        op = case["ops"][rec["n"]]
+        model = ans.get((i, "model"))
+        where = f"op {rec['n']} ({rec['op']} on object {rec['obj']}, pathway {rec['loaded']})"
+        if rec["op"] == "realizable":
+            if "error" in rec:
+                if rec["built"] and model is not None and model["verdict"] != "RuntimeError":
+                    corr.append((rec["n"], f"{where}: RuntimeError although the net was built; model verdict {model['verdict']}"))
+                continue
+            sub = pr_step_case(case, op, rec)
+            s = None
+            if rec["verdict"] == "found":
+                c = ans.get((i, "cert"))
+                if rec["seq"] is None:
+                    s = "verdict True without a firing sequence"
+                elif c is None:
+                    s = f"returned sequence {rec['seq']!r} is not a list of transition ids"
+                elif not c["valid"]:
+                    s = (f"returned sequence {rec['seq']} is not a valid firing sequence from M0 to MT of the loaded pathway "
+                         f"(Lean validCertificate = false)")
+                elif not c["counts_ok"]:
+                    s = f"returned sequence {rec['seq']} does not fire every reaction flow(e) times"
+            else:
+                size, d = exhaustive(sub)
+                if size is not None and d is not None and d <= sub["max_depth"] and size <= sub["max_states"]:
+                    s = (f"reported unrealizable although a firing sequence of length {d} <= max_depth={sub['max_depth']} exists "
+                         f"and only {size} <= max_states={sub['max_states']} markings are reachable")
+            if s is not None:
+                spec.append((rec["n"], f"{where}: {s}"))
+                continue
+            if model is None or model["verdict"] in ("fuelOut",):
+                continue
+            if not rec["built"]:
+                continue  # answered without a documented build: judged by the specification only
+            if model["verdict"] != rec["verdict"]:
+                corr.append((rec["n"], f"{where}: verdict impl={rec['verdict']} model={model['verdict']} with bounds "
+                                       f"{sub['max_states']}/{sub['max_depth']}"))
+            elif rec["verdict"] == "found" and rec["cert_attr"] != rec["seq"]:
+                corr.append((rec["n"], f"{where}: the `certificate` attribute differs from the returned sequence"))
+            elif model["verdict"] != "RuntimeError" and (rec["M0"] != model["M0"] or rec["MT"] != model["MT"]):
+                corr.append((rec["n"], f"{where}: markings M0={rec['M0']} MT={rec['MT']} model M0={model['M0']} MT={model['MT']}"))
+        elif rec["op"] in ("export", "markings") and "M0" in rec and model is not None and model["verdict"] != "RuntimeError":
+            if rec["built"] and (rec["M0"] != model["M0"] or rec["MT"] != model["MT"]):
+                corr.append((rec["n"], f"{where}: markings M0={rec['M0']} MT={rec['MT']} model M0={model['M0']} MT={model['MT']}"))
+    return spec, corr
+
+
+def pr_history_verdict(ctx, case):
+    steps = impl_pr_history(case)
+    reqs = pr_history_requests(case, steps)
+    answers = ctx.lean().ok([r for _, _, r in reqs])
+    return steps, judge_pr_history(case, steps, reqs, answers)
+
+
+def shrink_pr_history(ctx, case):
+    def fails(ops):
+        try:
+            return bool(ops) and bool(pr_history_verdict(ctx, dict(case, ops=ops))[1][0])
+        except Exception:
+            return False
+    small = dict(case, ops=shrink_seq(case["ops"], fails, budget=60))
+    # drop the pathways and objects that are no longer used
+    used = sorted({op["pw"] for op in small["ops"] if op["op"] == "load"})
+    cand = dict(small, pathways=[case["pathways"][i] for i in used],
+                ops=[dict(op, pw=used.index(op["pw"])) if op["op"] == "load" else op for op in small["ops"]])
+    try:
+        if pr_history_verdict(ctx, cand)[1][0]:
+            small = cand
+    except Exception:
+        pass
+    # fewer reactions in the pathways that are left
+    for i in range(len(small["pathways"])):
+        pw = small["pathways"][i]
+
+        def with_rs(rs):
+            ids = {r["id"] for r in rs}
+            q = dict(pw, desc=dict(pw["desc"], reactions=rs), flow=[[k, v] for k, v in pw["flow"] if k in ids])
+            q.pop("edge_order", None)
+            return dict(small, pathways=small["pathways"][:i] + [q] + small["pathways"][i + 1:])
+
+        def fails_rs(rs):
+            try:
+                return bool(rs) and bool(pr_history_verdict(ctx, with_rs(rs))[1][0])
+            except Exception:
+                return False
+        base = pw["desc"]["reactions"]
+        if fails_rs(base):
+            small = with_rs(shrink_seq(base, fails_rs, budget=25))
+    return small
+
+
+def flush_pending(ctx, reported, pending):
+    """History streams judge every history before reporting: specification failures (with their minimised
+    input) come first; correspondence differences are reported only when no history violated the specification."""
+    if reported == 0:
+        for what, case, detail in pending[:3]:
+            ctx.violation(what, case, detail, no_input=True)
+    elif pending:
+        ctx.count("history:correspondence differences next to specification failures (not reported separately)", len(pending))
+
+
+def summarize_pr_step(rec):
+    keep = {k: rec[k] for k in ("n", "op", "obj", "loaded", "verdict", "seq", "result", "error", "konig") if k in rec}
+    return keep
+
+
+def run_pr_histories(ctx, cases, tag):
+    runs = [impl_pr_history(c) for c in cases]
+    reqs = [pr_history_requests(c, st) for c, st in zip(cases, runs)]
+    flat = [r for rq in reqs for _, _, r in rq]
+    answers = ctx.lean().ok(flat, shards=8)
+    pos = 0
+    reported, pending = 0, []
+    for case, steps, rq in zip(cases, runs, reqs):
+        ans = answers[pos: pos + len(rq)]
+        pos += len(rq)
+        spec, corr = judge_pr_history(case, steps, rq, ans)
+        judged = 0
+        dirty = [False] * len(case["configs"])  # a scaled / borrow call since the last documented (re)build or load
+        for rec in steps:
+            ctx.count("pr-history:op=" + rec["op"] + (":RuntimeError" if "error" in rec else ""))
+            if rec["op"] == "realizable" and "error" not in rec and rec["loaded"] is not None:
+                judged += 1
+                kind = case["pathways"][rec["loaded"]].get("kind")
+                ctx.count(f"pr-history:is_realizable:{kind}:{rec['verdict']}")
+                if dirty[rec["obj"]]:
+                    ctx.count("pr-history:is_realizable right after scaled/borrow (no rebuild)")
+            if rec["op"] == "scaled" and "error" not in rec:
+                ctx.count("pr-history:scaled=" + ("none" if not rec["result"][0] else "k=1" if rec["result"][1] == 1 else "k>=2"))
+                dirty[rec["obj"]] = True
+            elif rec["op"] == "borrow" and "error" not in rec:
+                b = rec["result"][1]
+                ctx.count("pr-history:borrow=" + ("none" if b is None else "zero-vector" if not any(v for _, v in b) else "non-zero"))
+                dirty[rec["obj"]] = True
+            elif rec["op"] in ("build", "load", "export"):
+                dirty[rec["obj"]] = False
+        ctx.count(f"pr-history[{tag}]")
+        ctx.count("pr-history:objects=" + str(len(case["configs"])))
+        ctx.case(["pr-history", case], judged >= 2,
+                 sample={"stream": tag, "pathways": [[netio.fmt(p["desc"]), p["flow"]] for p in case["pathways"]],
+                         "configs": case["configs"], "ops": case["ops"], "steps": [summarize_pr_step(r) for r in steps]}
+                 if len(case["ops"]) <= 7 and len(case["pathways"]) == 1 else None)
+        if spec:
+            ctx.count("pr-history:histories with a specification failure")
+        if spec and reported < 3:
+            reported += 1
+            small = shrink_pr_history(ctx, case)
+            ssteps, (sspec, _) = pr_history_verdict(ctx, small)
+            ctx.violation("pathway realizability answer violates its specification for the loaded pathway "
+                          "(history of calls on one PathwayRealizability object)", small,
+                          {"spec": [m for _, m in (sspec or spec)], "steps": [summarize_pr_step(r) for r in ssteps],
+                           "pathways": [[netio.fmt(p["desc"]), p["flow"]] for p in small["pathways"]], "stream": tag})
+        elif corr and not spec:
+            pending.append(("correspondence realizability history: impl and model differ although the specification holds",
+                            case, {"diff": [m for _, m in corr], "stream": tag}))
+    flush_pending(ctx, reported, pending)
+
+
+# =============================================================== histories on PetriNet objects
+def random_net_history(rnd):
+    places = ["p", "q", "r", "s", "A", "__ext__e"][: rnd.randint(1, 6)]
+    tids = ["t1", "t2", "t3"]
+    nnets = 2 if rnd.random() < 0.3 else 1
+    ops = []
+
+    def arcs():
+        return [[p, rnd.choice([1, 1, 1, 2, 3, 0])] for p in rnd.sample(places, rnd.randint(0, min(3, len(places))))]
+
+    def add_t(k):
+        ops.append({"op": "add_transition", "net": k, "tid": rnd.choice(tids), "pre": arcs(), "post": arcs()})
+
+    for k in range(nnets):
+        add_t(k)
+    nreg = 0
+    for _ in range(rnd.randint(5, 14)):
+        k = rnd.randrange(nnets)
+        x = rnd.random()
+        known = sorted({o["tid"] for o in ops if o["op"] == "add_transition" and o["net"] == k})
+        if x < 0.22:
+            add_t(k)  # mostly an overwrite: three ids only
+        elif x < 0.27:
+            ops.append({"op": "add_place", "net": k, "p": rnd.choice(places + ["zz"])})
+        else:
+            if nreg and rnd.random() < 0.6:
+                mk = {"reg": rnd.randrange(nreg)}
+            else:
+                mk = [[p, rnd.choice([0, 0, 1, 2, 3, 5])] for p in places + ["zz"] if rnd.random() < 0.7]
+            tid = rnd.choice(tids + ["nope"]) if rnd.random() < 0.1 else rnd.choice(known)
+            if x < 0.45:
+                ops.append({"op": "enabled", "net": k, "tid": tid, "marking": mk})
+            elif x < 0.9:
+                ops.append({"op": "fire", "net": k, "tid": tid, "marking": mk, "if_enabled": rnd.random() < 0.6})
+                nreg += 1
+            else:
+                ops.append({"op": "tuple", "net": k, "marking": mk})
+    return {"stream": "net-history", "nets": nnets, "ops": ops}
+
+
+def impl_net_history(case):
+    """Interleaved add_place / add_transition (overwrites) / enabled / fire / marking_to_tuple on one or two
+    nets; markings returned by `fire` are kept (the same dict object) and passed in again later."""
+    from synkit.CRN.Petri import PetriNet
+
+    nets = [PetriNet() for _ in range(case["nets"])]
+    defs = [[] for _ in nets]  # add_transition calls so far, per net
+    regs = []
+    out = []
+    for n, op in enumerate(case["ops"]):
+        k = op["net"]
+        net = nets[k]
+        kind = op["op"]
+        if kind == "add_transition":
+            net.add_transition(op["tid"], dict(map(tuple, op["pre"])), dict(map(tuple, op["post"])))
+            defs[k].append({"tid": op["tid"], "pre": op["pre"], "post": op["post"]})
+            continue
+        if kind == "add_place":
+            net.add_place(op["p"])
+            continue
+        mk = op["marking"]
+        if isinstance(mk, dict):
+            m = regs[mk["reg"] % len(regs)] if regs else {}
+        else:
+            m = dict(map(tuple, mk))
+        before = dict(m)
+        rec = {"n": n, "op": kind, "net": k, "tid": op.get("tid"), "marking": _pairs(before), "defs": list(defs[k])}
+        if kind == "tuple":
+            tup = net.marking_to_tuple(m)
+            rec["tuple_ok"] = (len(tup) == len(net._place_index) == len(net.places)
+                               and sorted(net._place_index.values()) == list(range(len(tup)))
+                               and all(int(tup[i]) == int(m.get(p, 0)) for p, i in net._place_index.items()))
+            rec["tuple"] = [int(x) for x in tup]
+        else:
+            try:
+                rec["enabled"] = bool(net.enabled(m, op["tid"]))
+            except KeyError:
+                rec["enabled"] = "KeyError"
+            if kind == "fire":
+                try:
+                    f = net.fire(m, op["tid"])
+                    rec["fire"] = _pairs(f)
+                    if not op.get("if_enabled") or rec["enabled"] is True:
+                        regs.append(f)
+                    else:
+                        regs.append(m)
+                except KeyError:
+                    rec["fire"] = "KeyError"
+                    regs.append(m)
+        rec["mutated"] = m != before
+        out.append(rec)
+    return out
+
+
+def net_history_requests(steps):
+    return [{"cmd": "petri.net.run", "transitions": rec["defs"], "queries": [{"marking": rec["marking"], "tid": rec["tid"]}]}
+            for rec in steps if rec["op"] != "tuple"]
+
+
+def judge_net_history(steps, answers):
+    """-> (spec failures, correspondence failures); every query is judged against the transitions defined
+    on ITS net at that moment and the marking it was handed, nothing else."""
+    spec, corr = [], []
+    it = iter(answers)
+    for rec in steps:
+        where = f"op {rec['n']} ({rec['op']} {rec.get('tid')} on net {rec['net']}, marking {rec['marking']})"
+        if rec["op"] == "tuple":
+            if not rec["tuple_ok"]:
+                corr.append((rec["n"], f"{where}: marking_to_tuple = {rec['tuple']} is not the marking in _place_index order"))
+            continue
+        model = next(it)["results"][0]
+        one = {"transitions": rec["defs"], "queries": [{"marking": rec["marking"], "tid": rec["tid"]}]}
+        res = {"enabled": rec["enabled"], "fire": rec.get("fire", model["fire"])}
+        s = fire_spec_check(one, {"results": [res]})
+        if s is not None:
+            spec.append((rec["n"], f"{where}: {s}"))
+        elif rec["mutated"]:
+            corr.append((rec["n"], f"{where}: the marking passed in was mutated"))
+        elif res["enabled"] != model["enabled"] or res["fire"] != model["fire"]:
+            corr.append((rec["n"], f"{where}: impl={res} model={model}"))
+    return spec, corr
+
+
+def net_history_verdict(ctx, case):
+    steps = impl_net_history(case)
+    return steps, judge_net_history(steps, ctx.lean().ok(net_history_requests(steps)))
+
+
+def run_net_histories(ctx, cases, tag):
+    runs = [impl_net_history(c) for c in cases]
+    reqs = [net_history_requests(st) for st in runs]
+    answers = ctx.lean().ok([r for rq in reqs for r in rq], shards=8)
+    pos = 0
+    reported, pending = 0, []
+    for case, steps, rq in zip(cases, runs, reqs):
+        ans = answers[pos: pos + len(rq)]
+        pos += len(rq)
+        spec, corr = judge_net_history(steps, ans)
+        for rec in steps:
+            ctx.count("net-history:op=" + rec["op"] + ("" if rec["op"] == "tuple" else ":enabled=" + str(rec["enabled"])))
+        ctx.count(f"net-history[{tag}]")
+        over = len([o for o in case["ops"] if o["op"] == "add_transition"]) > len({(o["net"], o["tid"]) for o in case["ops"] if o["op"] == "add_transition"})
+        ctx.count("net-history:overwrites=" + str(over))
+        ctx.case(["net-history", case], any(r.get("enabled") is True for r in steps),
+                 sample={"stream": tag, **case} if len(case["ops"]) <= 6 else None)
+        if spec and reported < 3:
+            reported += 1
+
+            def fails(ops):
+                try:
+                    return bool(ops) and bool(net_history_verdict(ctx, dict(case, ops=ops))[1][0])
+                except Exception:
+                    return False
+            small = dict(case, ops=shrink_seq(case["ops"], fails, budget=60))
+            ssteps, (sspec, _) = net_history_verdict(ctx, small)
+            ctx.violation("PetriNet.enabled/fire do not follow the firing rule (history of calls on one PetriNet object)", small,
+                          {"spec": [m for _, m in (sspec or spec)], "stream": tag})
+        elif corr and not spec:
+            pending.append(("correspondence firing history: PetriNet differs from the model although the firing rule holds",
+                            case, {"diff": [m for _, m in corr], "stream": tag}))
+    flush_pending(ctx, reported, pending)
+
+
+# =============================================================== analyser objects reused across edited networks
+def desc_of_hypergraph(H):
+    """The network a CRNHyperGraph holds NOW, read from its public store (ids, rules, sides, species)."""
+    rs = [{"id": eid, "rule": e.rule, "r": sorted([s, int(c)] for s, c in e.reactants.items()),
+           "p": sorted([s, int(c)] for s, c in e.products.items())} for eid, e in H.edges.items()]
+    used = {s for r in rs for s, _ in r["r"] + r["p"]}
+    return {"reactions": rs, "isolated": sorted(set(H.species) - used)}
+
+
+def random_analyzer_history(rnd):
+    raw = rnd.random() < 0.3
+    desc = random_desc(rnd, max_species=5, max_rxn=4)
+    if raw:
+        desc["isolated"] = []
+    sp = sorted({s for r in desc["reactions"] for s, _ in r["r"] + r["p"]}) + ["F"]
+    nan = 2 if rnd.random() < 0.3 else 1
+    sizes = [rnd.choice([None, None, None, 1, 2, 3]) for _ in range(nan)]
+    ids = [r["id"] for r in desc["reactions"]]
+    ops = []
+    fresh = 0
+    for _ in range(rnd.randint(4, 9)):
+        x = rnd.random()
+        if x < 0.34:
+            ops.append({"op": "compute", "an": rnd.randrange(nan), "how": rnd.choice(["siphons_traps", "siphons_traps", "all"]),
+                        "read": rnd.choice(["attr", "attr", "as_dict"])})
+        elif x < 0.5:
+            ops.append({"op": "find", "max_size": rnd.choice([None, None, 1, 2]), "copy": rnd.random() < 0.3})
+        elif x < 0.72:
+            def side(lo, hi):
+                return [[s, rnd.choice([1, 1, 2, 0] if raw else [1, 1, 2])] for s in rnd.sample(sp, rnd.randint(lo, hi))]
+            r, p = side(0, 2), side(0, 2)
+            if not [e for e in r if e[1] > 0] and not [e for e in p if e[1] > 0]:
+                p = [[rnd.choice(sp), 1]]
+            fresh += 1
+            rid = f"n_{fresh}"
+            ops.append({"op": "add", "rxn": {"id": rid, "rule": rnd.choice(["r", "R1"]), "r": r, "p": p}})
+            ids.append(rid)
+        elif x < 0.9:
+            if len(ids) > 1:
+                rid = rnd.choice(ids)
+                ids.remove(rid)
+                ops.append({"op": "remove", "id": rid})
+        elif x < 0.95:
+            ops.append({"op": "persistence", "an": rnd.randrange(nan)})
+        else:
+            ops.append({"op": "remove_species", "s": rnd.choice(sp)})
+    ops.append({"op": "compute", "an": rnd.randrange(nan), "how": "siphons_traps", "read": "attr"})
+    return {"stream": "analyzer-history", "raw": raw, "desc": desc, "max_sizes": sizes, "ops": ops}
+
+
+def impl_analyzer_history(case):
+    """One or two `PetriAnalyzer` objects built ONCE on a network object that is then edited in place
+    (CRNHyperGraph through add_rxn / remove_rxn / remove_species, or a hand-built bipartite DiGraph through
+    node/arc insertion and removal); `find_siphons` / `find_traps` called on the same object in between."""
+    import copy
+
+    from synkit.CRN.Petri import PetriAnalyzer, find_siphons, find_traps
+
+    raw = bool(case.get("raw"))
+    desc = copy.deepcopy(case["desc"])
+    if raw:
+        crn = netio.to_bipartite_raw(desc)
+        desc["isolated"] = sorted({s for r in desc["reactions"] for s, _ in r["r"] + r["p"]})
+    else:
+        crn = netio.to_hypergraph(desc)
+    ans = [PetriAnalyzer(crn, max_siphon_size=ms) for ms in case["max_sizes"]]
+    out = []
+
+    def now():
+        return copy.deepcopy(desc) if raw else desc_of_hypergraph(crn)
+
+    for n, op in enumerate(case["ops"]):
+        kind = op["op"]
+        rec = {"n": n, "op": kind}
+        try:
+            if kind == "add":
+                rx = op["rxn"]
+                if raw:
+                    if any(r["id"] == rx["id"] for r in desc["reactions"]):
+                        continue
+                    rn = "R:" + rx["id"]
+                    for s, _ in rx["r"] + rx["p"]:
+                        if "S:" + s not in crn:
+                            crn.add_node("S:" + s, kind="species", bipartite=0, label=s)
+                            desc["isolated"] = sorted(set(desc["isolated"]) | {s})
+                    crn.add_node(rn, kind="reaction", bipartite=1, label=rx["rule"])
+                    for s, c in rx["r"]:
+                        crn.add_edge("S:" + s, rn, role="reactant", stoich=int(c))
+                    for s, c in rx["p"]:
+                        crn.add_edge(rn, "S:" + s, role="product", stoich=int(c))
+                    desc["reactions"].append(copy.deepcopy(rx))
+                else:
+                    if rx["id"] in crn.edges:
+                        continue
+                    crn.add_rxn(dict(map(tuple, rx["r"])), dict(map(tuple, rx["p"])), rule=rx["rule"], edge_id=rx["id"])
+                continue
+            if kind == "remove":
+                if raw:
+                    if len(desc["reactions"]) <= 1 or not any(r["id"] == op["id"] for r in desc["reactions"]):
+                        continue
+                    crn.remove_node("R:" + op["id"])
+                    desc["reactions"] = [r for r in desc["reactions"] if r["id"] != op["id"]]
+                else:
+                    if len(crn.edges) <= 1 or op["id"] not in crn.edges:
+                        continue
+                    crn.remove_rxn(op["id"])
+                continue
+            if kind == "remove_species":
+                if raw or op["s"] not in crn.species:
+                    continue
+                keep = [e for e in crn.edges.values() if set(e.reactants.keys()) | set(e.products.keys()) != {op["s"]}]
+                if not keep:
+                    continue
+                crn.remove_species(op["s"])
+                continue
+            if kind == "persistence":
+                ans[op["an"] % len(ans)].check_persistence()
+                continue
+            if kind == "compute":
+                an = ans[op["an"] % len(ans)]
+                if op["how"] == "all":
+                    try:
+                        an.compute_all()
+                    except Exception:
+                        an.compute_siphons_traps()
+                else:
+                    an.compute_siphons_traps()
+                if op.get("read") == "as_dict":
+                    d = an.as_dict()
+                    rec["siphons"], rec["traps"] = fam(d["siphons"]), fam(d["traps"])
+                else:
+                    rec["siphons"], rec["traps"] = fam(an.siphons), fam(an.traps)
+                rec["max_size"] = case["max_sizes"][op["an"] % len(ans)]
+            elif kind == "find":
+                target = crn.copy() if op.get("copy") else crn
+                rec["siphons"] = fam(find_siphons(target, max_size=op["max_size"]))
+                rec["traps"] = fam(find_traps(target, max_size=op["max_size"]))
+                rec["max_size"] = op["max_size"]
+            rec["desc"] = now()
+            if not raw:
+                rec["enc"] = netio.check_encoding(rec["desc"], crn)
+        except ValueError as e:  # a network without reaction (or species) nodes is rejected
+            rec["error"] = f"ValueError: {e}"
+        out.append(rec)
+    return out
+
+
+def analyzer_history_requests(case, steps):
+    reqs = []
+    for rec in steps:
+        if "siphons" in rec:
+            c = {"desc": rec["desc"], "max_size": rec["max_size"], "raw": case.get("raw")}
+            reqs.append(structure_request(c))
+    return reqs
+
+
+def judge_analyzer_history(ctx, case, steps, answers):
+    spec, corr = [], []
+    it = iter(answers)
+    for rec in steps:
+        if "siphons" not in rec:
+            continue
+        model = next(it)
+        where = f"op {rec['n']} ({rec['op']}, max_size {rec['max_size']}) on {netio.fmt(rec['desc'])}"
+        if rec.get("enc") is not None:
+            corr.append((rec["n"], f"{where}: network encoder and bipartite view disagree (harness assumption): {rec['enc']}"))
+            continue
+        impl = {"siphons": rec["siphons"], "traps": rec["traps"]}
+        d = structure_diff(impl, {"siphons": fam(model["siphons"]), "traps": fam(model["traps"])})
+        if d is None:
+            continue
+        c = {"desc": rec["desc"], "max_size": rec["max_size"], "raw": case.get("raw")}
+        sp = spec_structure(ctx, c, impl)
+        if not (sp["siphons"]["holds"] and sp["traps"]["holds"]):
+            spec.append((rec["n"], f"{where}: reported siphons={impl['siphons']} traps={impl['traps']}; specification: {sp}"))
+        else:
+            corr.append((rec["n"], f"{where}: {d}"))
+    return spec, corr
+
+
+def analyzer_history_verdict(ctx, case):
+    steps = impl_analyzer_history(case)
+    return steps, judge_analyzer_history(ctx, case, steps, ctx.lean().ok(analyzer_history_requests(case, steps)))
+
+
+def run_analyzer_histories(ctx, cases, tag):
+    runs = [impl_analyzer_history(c) for c in cases]
+    reqs = [analyzer_history_requests(c, st) for c, st in zip(cases, runs)]
+    answers = ctx.lean().ok([r for rq in reqs for r in rq], shards=8)
+    pos = 0
+    reported, pending = 0, []
+    for case, steps, rq in zip(cases, runs, reqs):
+        ans = answers[pos: pos + len(rq)]
+        pos += len(rq)
+        spec, corr = judge_analyzer_history(ctx, case, steps, ans)
+        judged = 0
+        for rec in steps:
+            ctx.count("analyzer-history:op=" + rec["op"] + (":ValueError" if "error" in rec else ""))
+            judged += "siphons" in rec
+        ctx.count(f"analyzer-history[{tag}]:" + ("bipartite-graph" if case.get("raw") else "hypergraph"))
+        edits = len([o for o in case["ops"] if o["op"] in ("add", "remove", "remove_species")])
+        ctx.case(["analyzer-history", case], judged >= 2 and edits >= 1,
+                 sample={"stream": tag, "net": netio.fmt(case["desc"]), "ops": case["ops"],
+                         "answers": [[r["n"], r.get("siphons"), r.get("traps")] for r in steps]} if len(case["ops"]) <= 5 else None)
+        if spec and reported < 3:
+            reported += 1
+
+            def fails(ops):
+                try:
+                    return bool(ops) and bool(analyzer_history_verdict(ctx, dict(case, ops=ops))[1][0])
+                except Exception:
+                    return False
+            small = dict(case, ops=shrink_seq(case["ops"], fails, budget=40))
+            _, (sspec, _) = analyzer_history_verdict(ctx, small)
+            ctx.violation("reported siphons/traps are not exactly the inclusion-minimal closed sets of the CURRENT network "
+                          "(analyser / network object reused across edits)", small,
+                          {"spec": [m for _, m in (sspec or spec)], "net": netio.fmt(small["desc"]), "stream": tag})
+        elif corr and not spec:
+            pending.append(("correspondence structure history: impl and model families differ although the specification holds",
+                            case, {"diff": [m for _, m in corr], "stream": tag}))
+    flush_pending(ctx, reported, pending)
+
+
 # =============================================================== driver
 def load_regress():
     d = ROOT / "regress" / "C20"
@@ -709,6 +1624,12 @@ def dispatch(ctx, case, tag):
         run_structure(ctx, [case], tag, spec_all=True)
     elif k == "firing":
         run_firing(ctx, [case], tag)
+    elif k == "pr-history":
+        run_pr_histories(ctx, [case], tag)
+    elif k == "net-history":
+        run_net_histories(ctx, [case], tag)
+    elif k == "analyzer-history":
+        run_analyzer_histories(ctx, [case], tag)
     else:
         run_realizable(ctx, [case], tag)
 
@@ -727,6 +1648,11 @@ def run(ctx):
         "reaction ids are distinct (dict keys), sides are dicts with positive integer coefficients (RXNSide normalisation; C15/C16 cover the store)",
         "max_size, max_states, max_depth are non-negative integers or None",
         "C20 'within the search bounds' (DESIGN 5a): a firing sequence of length <= max_depth exists and at most max_states markings are reachable",
+        "history streams: the pathway an is_realizable answer is judged against is the one passed to the LAST load_hypergraph_and_flow on that object "
+        "(attributes are never assigned from outside); effective bounds = argument, else the object's RealizabilityConfig, else 100000/10000; "
+        "an answer given before any documented (re)build (build / scaled / borrow / export) is judged by the specification only, RuntimeError is "
+        "no answer; results of is_realizable_via_konig / is_scaled_realizable / is_borrow_realizable themselves are recorded, not gated "
+        "(C20 does not speak about them)",
     ]
     ctx.gen_rule = (
         "regression corpus first. STRUCTURE: all networks over {A,B,C} with <=2 (quick) / <=3 (thorough) distinct unit-coefficient reactions "
@@ -735,9 +1661,20 @@ def run(ctx):
         "zero coefficients. FIRING: random PetriNets (<=6 places, <=4 add_transition calls incl. overwritten ids, weights in -1..3), markings with "
         "missing/extra places, unknown ids. REALIZABILITY: random pathways (<=4 species quick / <=5 thorough, 2-6 reactions with a source and a sink), "
         "flows from a simulated firing sequence returning to the zero marking, perturbed flows, arbitrary small flows, negative flow; bounds generous "
-        "or deliberately tight; edges in shuffled dict order or through hypergraph_to_pr_inputs; bounds via arguments or RealizabilityConfig.")
+        "or deliberately tight; edges in shuffled dict order or through hypergraph_to_pr_inputs; bounds via arguments or RealizabilityConfig. "
+        "HISTORIES (hidden state): PR-HISTORY = 1-2 PathwayRealizability objects (default config, RealizabilityConfig generous or tight), a pool "
+        "of 1-3 pathways (half of them grown along a firing sequence from a NON-zero marking back to it: closed cycles, autocatalysis, catalysts "
+        "needed in several copies, borrowed species fed/drained by sources/sinks - realizable only with borrowed tokens or after scaling; the "
+        "rest from the realizability generator above), 5-14 calls drawn from load, build, is_realizable (default / generous / tight bounds), "
+        "is_realizable_via_konig, is_scaled_realizable(k_max<=4), is_borrow_realizable(max_borrow_each<=2), certificate, export_pnml, "
+        "initial_marking/target_marking, ending in is_realizable; NET-HISTORY = 1-2 PetriNets, 6-15 interleaved add_transition (3 ids, so mostly "
+        "overwrites) / add_place / enabled / fire / marking_to_tuple, markings fresh or a dict returned by an earlier fire; ANALYZER-HISTORY = "
+        "1-2 PetriAnalyzers (max_siphon_size None/1/2/3) built once on a CRNHyperGraph or a hand-built bipartite DiGraph that is then edited "
+        "in place (add / remove reaction, remove species, zero-coefficient arcs), compute_siphons_traps / compute_all / as_dict / "
+        "check_persistence and find_siphons/find_traps (on the object or a copy) in between.")
     ctx.nontrivial_rule = ("structure: >=2 reactions and at least one siphon or trap; firing: some query enabled; "
-                           "realizability: total flow >=2 on >=2 reactions; distinct as JSON values")
+                           "realizability: total flow >=2 on >=2 reactions; pr-history: >=2 judged is_realizable answers; net-history: some "
+                           "query enabled; analyzer-history: >=2 judged families and >=1 edit; distinct as JSON values")
     build_and_audit_scoped(ctx, "SynKitProofs.Props.C20", "SynKitProofs/Audit/C20.lean", THEOREMS)
 
     for c in load_regress():
@@ -788,6 +1725,25 @@ def run(ctx):
             desc["isolated"] = []
             raw.append({"stream": "structure", "desc": desc, "max_size": rnd.choice([None, None, 2]), "raw": True})
         run_structure(ctx, raw, "raw-bipartite-zero-coefficients", spec_all=True)
+    if not ctx.violations:
+        # the same kind of hand-built graphs in the other documented renderings (option / input-shape variation)
+        var = []
+        for i in range(240 if ctx.quick else 1600):
+            desc = random_desc(rnd, max_species=5, max_rxn=4)
+            render = ["int-ids", "no-label", "undirected"][i % 3]
+            if render == "undirected":
+                for r in desc["reactions"]:
+                    on_r = {sp for sp, _ in r["r"]}
+                    r["p"] = [e for e in r["p"] if e[0] not in on_r]
+                desc["reactions"] = [r for r in desc["reactions"] if r["r"] or r["p"]] or [{"id": "r_1", "rule": "r", "r": [["A", 1]], "p": []}]
+            for r in desc["reactions"]:
+                for side in ("r", "p"):
+                    for ent in r[side]:
+                        if rnd.random() < 0.1:
+                            ent[1] = 0
+            desc["isolated"] = ["Z"] if rnd.random() < 0.15 else []
+            var.append({"stream": "structure", "desc": desc, "max_size": rnd.choice([None, None, 1, 2, 3]), "raw": True, "render": render})
+        run_structure(ctx, var, "raw-bipartite-renderings", spec_all=True)
     ctx.obligation("correspondence: find_siphons / find_traps / PetriAnalyzer == model, families as sets of label sets", not ctx.violations)
 
     # ---- firing
@@ -801,8 +1757,31 @@ def run(ctx):
            for i in range(500 if ctx.quick else 5000)]
     pcs.append({"stream": "realizable", "desc": {"reactions": []}, "flow": [], "max_states": 10, "max_depth": 10, "kind": "empty"})
     run_realizable(ctx, pcs, "random")
+    if len(ctx.violations) == nv:
+        rare = []
+        for i in range(150 if ctx.quick else 1500):
+            c = random_pathway_case(rnd, max_species=3 if i % 3 == 0 else 4, small=(i % 3 == 0))
+            c["via_hypergraph"] = False
+            if "edge_order" not in c:
+                c["edge_order"] = list(range(len(c["desc"]["reactions"])))
+            rare.append(dict(decorate_pathway(rnd, c), stream="realizable"))
+        run_realizable(ctx, rare, "rare-input-shapes")
     ctx.obligation("correspondence: extended net, verdict under equal bounds == model; certificate valid (Lean spec); "
                    "verdict consistent with exhaustive reachability", len(ctx.violations) == nv)
+
+    # ---- histories: objects reused across queries (answers judged per query, independent of the history)
+    nv = len(ctx.violations)
+    run_pr_histories(ctx, [random_pr_history(rnd, max_species=3 if i % 2 == 0 else 4) for i in range(600 if ctx.quick else 5000)], "history")
+    ctx.obligation("histories on PathwayRealizability objects (all public methods, random order, one or two objects): every is_realizable "
+                   "answer satisfies the specification of the pathway loaded at that moment and equals the model verdict", len(ctx.violations) == nv)
+    nv = len(ctx.violations)
+    run_net_histories(ctx, [random_net_history(rnd) for _ in range(300 if ctx.quick else 3000)], "history")
+    ctx.obligation("histories on PetriNet objects (overwritten transitions, markings returned by fire passed in again, two nets interleaved): "
+                   "every enabled/fire answer follows the firing rule of the transition as defined at that moment", len(ctx.violations) == nv)
+    nv = len(ctx.violations)
+    run_analyzer_histories(ctx, [random_analyzer_history(rnd) for _ in range(200 if ctx.quick else 2000)], "history")
+    ctx.obligation("histories on PetriAnalyzer / network objects edited in place: every computed siphon/trap family is that of the "
+                   "network as it is at that moment", len(ctx.violations) == nv)
 
 
 def replay(ctx, case):
